@@ -48,7 +48,9 @@ DATA = {
 DATA[3] = [np.array([[x, y, z] for x, y, z in [(0.1, 0.3, 0.7), (0.3, 0.9, 0.2), (0.5, 0.5, 0.5), (0.77, 0.1, 0.9), (0.9, 0.77, 0.3), (0.2, 0.6, 0.1),
                                              (0.6, 0.2, 0.8), (0.85, 0.4, 0.6), (0.4, 0.85, 0.45), (0.05, 0.05, 0.95), (0.95, 0.95, 0.05),
                                              (0.7, 0.7, 0.7), (0.33, 0.15, 0.55), (0.15, 0.66, 0.35)]])]
-TARGETS = {"smooth": lambda X: np.sin(3 * X[:, 0]) + (X[:, -1] ** 2), "rough": lambda X: np.where(X[:, 0] > 0.5, 1.0, -0.5) + 0.1 * X[:, -1]}
+TARGETS = {"smooth": lambda X: np.sin(3 * X[:, 0]) + (X[:, -1] ** 2),
+           # targets are arbitrary reals: also below -1 (the value that marks "no label" in classification data sets) and large
+           "negative_large": lambda X: 40.0 * np.sin(3 * X[:, 0]) - 25.0 - 60.0 * (X[:, -1] ** 2), "rough": lambda X: np.where(X[:, 0] > 0.5, 1.0, -0.5) + 0.1 * X[:, -1]}
 
 
 def _regression(c):
